@@ -90,15 +90,16 @@ class Gen:
         opts = leaf + [
             ("int.add", 3, lambda: ("bin", "+", sub(), self.operand_int(d))),
             ("int.sub", 3, lambda: ("bin", "-", sub(), self.operand_int(d))),
-            ("int.mul", 2, lambda: ("bin", "*", self.operand_int(d), self.operand_int(d))),
-            ("int.floordiv", 2, lambda: ("bin", "//", self.operand_int(d), self.operand_int(d))),
-            ("int.mod", 2, lambda: ("bin", "%", self.operand_int(d), self.operand_int(d))),
+            ("int.mul", 2, lambda: ("bin", "*", self.operand_int(d), self.tight_int(d))),
+            ("int.floordiv", 2, lambda: ("bin", "//", self.operand_int(d), self.tight_int(d))),
+            ("int.mod", 2, lambda: ("bin", "%", self.operand_int(d), self.tight_int(d))),
             ("int.pow_var_base", 0.7, lambda: (lambda vs: ("pow", ("var", r.choice(vs)), ("int", r.randint(0, 3)), "int") if vs else None)(self.vars_of(INT))),
             ("int.pow_lit_base", 0.4, lambda: ("pow", ("int", r.randint(0, 5)), ("int", r.randint(0, 3)), "int")),
             ("int.paren_redundant", 1, lambda: ("paren", ("bin", "*", self.atom_int(), self.atom_int()))),
             ("paren.regroup", 1.2, lambda: ("bin", r.choice(["*", "-", "//", "%"]), ("paren", ("bin", r.choice(["+", "-"]), self.atom_int(), self.atom_int())), self.atom_int())),
             ("paren.regroup_right", 0.8, lambda: ("bin", r.choice(["-", "*"]), self.atom_int(), ("paren", ("bin", r.choice(["+", "-"]), self.atom_int(), self.atom_int())))),
-            ("int.len_str", 1, lambda: ("len", self.e_str(d + 1))),
+            ("int.len_str", 0.7, lambda: ("len", self.e_str(d + 1))),
+            ("int.len_str_ascii", 1, lambda: ("len", ("str", r.choice(["Hello", "", "x y", "aXbXc", "zz"])))),
 
             ("int.len_list", 1, lambda: (lambda vs: ("len", ("var", r.choice(vs))) if vs else None)(self.vars_of(LINT) + self.vars_of(LSTR))),
             ("int.call", 2, lambda: self.call_of(INT, d)),
@@ -133,11 +134,15 @@ class Gen:
             return ("bin", "*", self.atom_int(), self.atom_int())
         return self.e_int_tight(d + 1)
 
+    def tight_int(self, d):
+        """Right operand of * // %: an atom or a postfix-level expression."""
+        return self.atom_int() if self.r.random() < 0.7 or d >= 2 else self.e_int_tight(d + 1)
+
     def e_int_tight(self, d):
         """postfix-level int expression (call / index / field / len)."""
         for _ in range(4):
             e = self.e_int(3 if d >= 3 else d)
-            if e[0] in ("int", "var", "call", "idx", "field", "len", "mcall", "builtin", "paren"):
+            if e[0] in ("int", "var", "call", "idx", "field", "len", "mcall", "builtin"):
                 return e
         return self.atom_int()
 
@@ -196,7 +201,8 @@ class Gen:
             ("bool.cmp_float", 1.5, lambda: ("cmp", r.choice(["<", "<=", ">", ">="]), self.atom_float(), self.atom_float())),
             ("bool.cmp_mixed_int_left", 1.0, lambda: ("cmp", r.choice(["==", "<", ">=", "!=", ">"]), self.atom_int(), self.atom_float())),
             ("bool.cmp_mixed_float_left", 1.0, lambda: ("cmp", r.choice(["==", "<", ">=", "!=", ">"]), self.atom_float(), self.atom_int())),
-            ("bool.cmp_str", 1.5, lambda: ("cmp", r.choice(["==", "!=", "<", ">"]), self.atom_str(), self.atom_str())),
+            ("bool.cmp_str_lit", 1.0, lambda: ("cmp", r.choice(["==", "!=", "<", ">"]), ("str", r.choice(WORDS)), ("str", r.choice(WORDS)))),
+            ("bool.cmp_str_var", 1.0, lambda: (lambda vs: ("cmp", r.choice(["==", "!=", "<", ">"]), ("var", r.choice(vs)), self.atom_str()) if vs else None)(self.vars_of(STR))),
             ("bool.and", 2, lambda: ("and", sub(), sub())),
             ("bool.or", 2, lambda: ("or", sub(), sub())),
             ("bool.not_atom", 1.5, lambda: (lambda vs: ("not", ("var", r.choice(vs))) if vs else None)(self.vars_of(BOOL))),
@@ -273,7 +279,7 @@ class Gen:
         for _ in range(self.r.randint(1, 3)):
             k = self.r.random()
             if k < 0.4:
-                parts.append(self.r.choice(["v=", " ", "é:", "{x}", "a-b", ", "]))
+                parts.append(self.r.choice(["v=", " ", "é:", "a-b", ", "] + (["{x}", "}{"] if self.on("fstr.brace_literal", 0.3) else [])))
             elif k < 0.75:
                 parts.append(self.e_int_tight(d + 1) if self.r.random() < 0.6 else self.e_int(d + 1))
             else:
@@ -309,7 +315,7 @@ class Gen:
     def e_list_str(self, d=0):
         r = self.r
         return self.pick([
-            ("liststr.lit", 3, lambda: ("list", [self.atom_str() for _ in range(r.randint(0, 3))])),
+            ("liststr.lit", 3, lambda: ("list", [("str", r.choice(WORDS)) for _ in range(r.randint(0 if self.on("liststr.empty", 0.2) else 1, 3))])),
             ("liststr.split", 2, lambda: ("smeth", "split", ("str", r.choice(["a,b,c", "one two", "x", ",a,", "q,r,s"])), [("str", r.choice([",", " "]))])),
             ("liststr.var", 1, lambda: (lambda vs: ("var", r.choice(vs)) if vs else None)(self.vars_of(LSTR))),
         ])
@@ -359,7 +365,7 @@ class Gen:
 
     def field_of(self, ty):
         cands = []
-        for mname, fields, _ in self.models:
+        for mname, fields in [(m[0], m[1]) for m in self.models]:
             for v in self.vars_of(("model", mname)):
                 for fn, ft in fields:
                     if ft == ty:
@@ -375,7 +381,7 @@ class Gen:
 
     def method_of(self, ty, d):
         cands = []
-        for mname, fields, methods in self.models:
+        for mname, fields, methods in [(m[0], m[1], m[2]) for m in self.models]:
             for v in self.vars_of(("model", mname)):
                 for (meth, ptys, ret, mut) in methods:
                     if ret == ty and not mut:
@@ -394,10 +400,18 @@ class Gen:
                 for fn, ft in fields:
                     if fn in defaults and self.on("model.ctor_uses_default", 0.4):
                         continue
-                    args.append((fn, self.e_of(ft, d + 2)))
+                    args.append((fn, self.owned(ft, d + 2)))
                 self.r.random() < 0.3 and self.on("model.ctor_reordered", 1.0) and self.r.shuffle(args)
                 return ("ctor", mname, args)
         raise ValueError(mname)
+
+    def owned(self, ty, d):
+        """A value handed over to a field/constructor: never a bare str variable (copy-vs-move of strings is undocumented)."""
+        for _ in range(6):
+            e = self.e_of(ty, d)
+            if not (ty == STR and e[0] == "var"):
+                return e
+        return ("str", self.r.choice(WORDS)) if ty == STR else e
 
     def e_enum(self, ename, d):
         for e in self.enums:
@@ -468,6 +482,12 @@ class Gen:
         tys += [("model", m[0]) for m in self.models] * 2 + [("enum", e[0]) for e in self.enums]
         ty = r.choice(tys)
         e = self.e_of(ty, 0)
+        for _ in range(5):
+            # a binding initialised directly from another str/collection variable aliases it (copy-vs-move is undocumented)
+            if e[0] == "var" and ty not in (INT, FLOAT, BOOL):
+                e = self.e_of(ty, 0)
+        if e[0] == "var" and ty not in (INT, FLOAT, BOOL):
+            return None
         name = self.fresh()
         kind = self.pick([("let.inferred", 4, lambda: "inferred"), ("let.let", 1.5, lambda: "let"), ("let.mut", 4, lambda: "mut")])
         annotate = self.on("let.annotated", 0.35) or (ty in (LINT, LSTR, DSI, OINT) and e[0] in ("list", "dict", "none") )
@@ -511,14 +531,16 @@ class Gen:
         for mname, fields, _m in [(m[0], m[1], m[2]) for m in self.models]:
             for v in self.vars_of(("model", mname), True):
                 for fn, ft in fields:
-                    if ft in (INT, STR) and not (aug and ft != INT):
+                    if ft == INT or (ft == STR and not aug and "field.set_str" not in self.avoid):
                         cands.append((v, fn, ft))
         if not cands:
             return None
         v, fn, ft = self.r.choice(cands)
         if aug:
             return [("aug", self.r.choice(["+", "-", "*"]), ("field", ("var", v), fn), self.operand_int(1))] + self.print_of(ft, ("field", ("var", v), fn))
-        return [("setfield", ("var", v), fn, self.e_of(ft, 1))] + self.print_of(ft, ("field", ("var", v), fn))
+        if ft == STR:
+            self.feat.add("field.set_str")
+        return [("setfield", ("var", v), fn, self.owned(ft, 1))] + self.print_of(ft, ("field", ("var", v), fn))
 
     def mut_method_call(self):
         cands = []
@@ -611,7 +633,7 @@ class Gen:
         return [("for", v, ("builtin", "range", args), body)]
 
     def for_list(self, d):
-        vs = self.vars_of(LINT)
+        vs = self.vars_of(LINT, False)  # iterate only over immutable lists: the body must not mutate what it iterates
         v = self.fresh("x")
         src = ("var", self.r.choice(vs)) if vs and self.r.random() < 0.7 else ("list", [self.e_int(2) for _ in range(self.r.randint(0 if self.on("for.empty_list_literal", 0.2) else 1, 3))])
         self.scopes.append({v: (INT, False)})
@@ -743,7 +765,7 @@ class Gen:
             name = P + r.choice(["Shape", "Cmd", "Tok"]) + str(k)
             vs = []
             for vn in r.sample(["Circle", "Rect", "Empty", "Move", "Stop", "Num", "Word"], r.randint(1, 4)):
-                ptys = [r.choice([INT, STR, FLOAT]) for _ in range(r.randint(0, 2))] if self.on("enum.payload", 0.6) else []
+                ptys = [r.choice([INT, FLOAT] + ([STR] if self.on("enum.payload_str", 0.5) else [])) for _ in range(r.randint(0, 2))] if self.on("enum.payload", 0.6) else []
                 vs.append((vn, ptys))
             self.decls.append({"kind": "enum", "name": name, "variants": vs})
             self.enums.append((name, vs))
@@ -761,7 +783,7 @@ class Gen:
 
 
 def gen_case(rng, cid, avoid=(), nstmts=None):
-    for _ in range(20):
+    for _ in range(200):
         g = Gen(random.Random(rng.getrandbits(48)), cid, avoid)
         try:
             c = g.case(nstmts)
